@@ -1072,6 +1072,17 @@ sparse(PyTypeObject *type, PyObject *args, PyObject *kwds)
 
     for (jk=0; jk<SP_NCOLS(Objx); jk++)
       SP_COL(ret)[jk+1] += SP_COL(ret)[jk];
+
+    /* the typecode requested with tc */
+    if (id != -1 && id != SP_ID(Objx)) {
+      if (id < SP_ID(Objx)) {
+        Py_DECREF(ret);
+        PY_ERR_TYPE("illegal type conversion");
+      }
+      spmatrix *tmp = SpMatrix_NewFromSpMatrix(ret, id);
+      Py_DECREF(ret);
+      ret = tmp;
+    }
   }
 
   /* x is a list of lists */
